@@ -146,7 +146,7 @@ def conformance(ctx, executed, limit=40):
                 ctx.notes.append('batcher conformance: TLC error: %s' % (tail[-300:],))
                 und += 1
             else:
-                drift.append({'matched_prefix': best - 1, 'of': n - 1, 'first_unexplained': p['events'][best - 1]})
+                drift.append({'consts': p['consts'], 'behav': p['behav'], 'wild': p.get('wild'), 'events': p['events'] if not drift else None, 'matched_prefix': best - 1, 'of': n - 1, 'first_unexplained': p['events'][best - 1]})
     ctx.cov['conformance'] = {'traces_checked': len(todo), 'accepted': acc, 'drift': len(drift), 'undecided': und,
                               'drift_samples': drift[:3],
                               'what': 'recorded executions (class form; incl. batch functions that raise or misbehave) validated against the timed model Batcher.tla with silent assembler / '
